@@ -1025,5 +1025,310 @@ Proof.
     destruct (HU ts' rs f Hla Hm Hne (clean_tail _ _ Hc) Hfol) as (e & He & Hs); [lia|].
     rewrite He. eexists. split; [reflexivity|]. cbn [strip]. rewrite Hs. reflexivity.
   - pose proof (slvl_bin_le l op r). lia.
-  - cbn in Hl. lia.
 Qed.
+
+(* ---------- the binary ladder ---------- *)
+
+Lemma nxt_spine_fol s tsp rs : spine_ok s -> M (yield_sp s) tsp -> fol (nxt rs) ->
+  fol (nxt (tsp ++ rs)).
+Proof.
+  intros Hs Hm Hfol. destruct s as [|[o r] s].
+  - apply M_nil_inv in Hm. subst tsp. exact Hfol.
+  - cbn [yield_sp] in Hm. apply M_cons_inv in Hm. destruct Hm as (ot & t1 & E & Hot & _).
+    subst tsp. cbn [app nxt hd]. apply tm_punct in Hot. apply fol_op. rewrite Hot.
+    cbn [spine_ok] in Hs. tauto.
+Qed.
+
+Lemma nxt_spine_prec s tsp rs q : M (yield_sp s) tsp ->
+  (forall o r, In (o, r) s -> prec_of o <= q) -> prec_of (tk (nxt rs)) <= q ->
+  prec_of (tk (nxt (tsp ++ rs))) <= q.
+Proof.
+  intros Hm Hle Hrs. destruct s as [|[o r] s].
+  - apply M_nil_inv in Hm. subst tsp. exact Hrs.
+  - cbn [yield_sp] in Hm. apply M_cons_inv in Hm. destruct Hm as (ot & t1 & E & Hot & _).
+    subst tsp. cbn [app nxt hd]. apply tm_punct in Hot. rewrite Hot. apply (Hle o r). left. reflexivity.
+Qed.
+
+Lemma brest_complete : forall s, spine_ok s -> Forall (fun or : kind * sexpr => PB (snd or)) s ->
+  forall p l ts rs f, (forall o r, In (o, r) s -> p < prec_of o) -> 0 <= p ->
+  M (yield_sp s) ts -> rs <> [] -> clean (ts ++ rs) -> fol (nxt rs) ->
+  prec_of (tk (nxt rs)) <= p -> (10 * length ts + 1 <= f)%nat ->
+  exists e, parse_binary_rest f p l (st (ts ++ rs)) = Some (e, st rs) /\
+            strip e = unspine (strip l) s.
+Proof.
+  induction s as [|[o r] s IH]; intros Hs HPB p l ts rs f Hgt Hp Hm Hne Hc Hfol Hstop Hf.
+  - apply M_nil_inv in Hm. subst ts. cbn [app]. destruct f as [|f]; [lia|].
+    rewrite parse_binary_rest_S. cbv zeta. rewrite cur_st.
+    assert (E : (p <? prec_of (tk (nxt rs))) = false) by (apply Z.ltb_ge; exact Hstop).
+    rewrite E. exists l. split; reflexivity.
+  - cbn [spine_ok] in Hs. destruct Hs as (Hopos & Hwr & Hlr & Hmono & Hs').
+    pose proof (Forall_inv HPB) as HPr. cbn [snd] in HPr. pose proof (Forall_inv_tail HPB) as HPB'.
+    cbn [yield_sp] in Hm. apply M_cons_inv in Hm. destruct Hm as (ot & t1 & E1 & Hot & Hm).
+    apply M_app_inv in Hm. destruct Hm as (tr & tsp & E2 & Hmr & Hmsp). subst ts t1.
+    apply tm_punct in Hot.
+    norm_in Hc. norm_goal. cbn [length] in Hf. rewrite app_length in Hf.
+    destruct f as [|f]; [lia|].
+    rewrite parse_binary_rest_S. cbv zeta. rewrite cur_st_cons, Hot.
+    assert (E : (p <? prec_of o) = true).
+    { apply Z.ltb_lt. apply (Hgt o r). left. reflexivity. }
+    rewrite E.
+    pose proof (clean_tail _ _ Hc) as Hc1. pose proof (clean_app_r _ _ Hc1) as Hc2.
+    rewrite advance_st; [|apply app_ne, app_ne; exact Hne|exact Hc1].
+    destruct (HPr (prec_of o) tr (tsp ++ rs) f) as (er & Her & Hsr); auto.
+    { lia. }
+    { apply app_ne; exact Hne. }
+    { eapply nxt_spine_fol; eauto. }
+    { eapply nxt_spine_prec; eauto. specialize (Hgt o r (or_introl eq_refl)). lia. }
+    { lia. }
+    rewrite Her.
+    match goal with |- exists e, parse_binary_rest f p ?L _ = _ /\ _ =>
+      destruct (IH Hs' HPB' p L tsp rs f) as (e & He & Hse); auto
+    end.
+    { intros o' r' Hin. apply (Hgt o' r'). right. exact Hin. }
+    { lia. }
+    exists e. split; [exact He|]. rewrite Hse. cbn [strip unspine]. rewrite Hsr. reflexivity.
+Qed.
+
+Lemma step_B n : IHn n -> (forall x, (size x <= S n)%nat -> wf x -> PU x) ->
+  forall x, (size x <= S n)%nat -> wf x -> PB x.
+Proof.
+  intros IH HU x Hsz Hw. unfold PB. intros p ts rs f Hp Hl Hm Hne Hc Hfol Hstop Hf.
+  assert (Hl2 : 2 <= slvl x) by lia.
+  pose proof (bspine_spec x Hw Hl2) as Hb. destruct (bspine x) as [a s].
+  destruct Hb as (Eu & Ey & Hwa & Hla & Hsa & Hs & Hin).
+  rewrite Ey in Hm. apply M_app_inv in Hm. destruct Hm as (ta & tsp & Ets & Hma & Hmsp). subst ts.
+  norm_in Hc. norm_goal. rewrite app_length in Hf.
+  destruct f as [|f]; [lia|]. rewrite parse_binary_S.
+  destruct (HU a) with (ts := ta) (rs := tsp ++ rs) (f := f) as (l & Hel & Hsl); auto.
+  { lia. }
+  { apply app_ne; exact Hne. }
+  { eapply nxt_spine_fol; eauto. }
+  { lia. }
+  rewrite Hel.
+  destruct (brest_complete s Hs) with (p := p) (l := l) (ts := tsp) (rs := rs) (f := f)
+    as (e & He & Hse); auto.
+  { apply Forall_forall. intros [o r] Hi. cbn [snd]. destruct (Hin o r Hi) as (_ & Hsr).
+    destruct (IH r) as (_ & HB & _); [lia| |exact HB].
+    clear - Hs Hi. induction s as [|[o1 r1] s IHs]; [destruct Hi|].
+    cbn [spine_ok] in Hs. destruct Hs as (_ & Hwr & _ & _ & Hs').
+    destruct Hi as [E|Hi]; [inversion E; subst; exact Hwr|apply IHs; assumption]. }
+  { intros o r Hi. destruct (Hin o r Hi) as (H1 & _). lia. }
+  { exact (clean_app_r _ _ Hc). }
+  { lia. }
+  rewrite He. exists e. split; [reflexivity|]. rewrite Hse, Hsl. exact Eu.
+Qed.
+
+(* ---------- assignment and conditional ---------- *)
+
+Lemma assign_plain x : PB x -> 2 <= slvl x ->
+  forall ts rs f, M (yield x) ts -> rs <> [] -> clean (ts ++ rs) -> fol (nxt rs) ->
+  stopA (nxt rs) -> (10 * length ts + 3 <= f)%nat -> ok1 (parse_assign f (st (ts ++ rs))) x rs.
+Proof.
+  intros HB Hl ts rs f Hm Hne Hc Hfol (Hprec & Hnas & Hnq) Hf.
+  destruct f as [|f]; [lia|]. rewrite parse_assign_S.
+  destruct (HB 0 ts rs f) as (e & He & Hs); auto; try lia.
+  rewrite He, cur_st, Hnas, at_kind_st, Hnq. exists e. split; [reflexivity|exact Hs].
+Qed.
+
+Lemma step_A n : IHn n -> (forall x, (size x <= S n)%nat -> wf x -> PB x) ->
+  forall x, (size x <= S n)%nat -> wf x -> PA x.
+Proof.
+  intros IH HB x Hsz Hw. unfold PA. intros ts rs f Hl Hm Hne Hc Hfol HstA Hf.
+  destruct x as [k v| |k v|op a|a|l op r|c t f0|es|a|a nk n0 asrt|a asrt|f0 args sp];
+    try (apply assign_plain; auto; cbn [slvl]; lia).
+  - (* SBin *)
+    destruct (kind_eqb op KComma) eqn:Ecomma.
+    { cbn [slvl] in Hl. rewrite Ecomma in Hl. lia. }
+    destruct (kind_eqb op KEquals) eqn:Eeq.
+    + (* assignment *)
+      apply keqb_eq in Eeq. subst op. cbn [wf] in Hw. cbn in Hw.
+      destruct Hw as (Hwl & Hwr & Hll & Hlr). cbn [size] in Hsz.
+      cbn [yield] in Hm. apply M_app_inv in Hm. destruct Hm as (tl & t2 & E1 & Hml & Hm).
+      apply M_cons_inv in Hm. destruct Hm as (eq & tr & E2 & Heq & Hmr). subst ts t2.
+      apply tm_punct in Heq.
+      norm_in Hc. norm_goal. rewrite app_length in Hf. cbn [length] in Hf.
+      destruct f as [|f]; [lia|]. rewrite parse_assign_S.
+      destruct (IH l) as (_ & HBl & _); [lia|exact Hwl|].
+      destruct (HBl 0 tl (eq :: tr ++ rs) f) as (el & Hel & Hsl); auto; try lia.
+      { discriminate. }
+      { apply (fol_k _ KEquals); [exact Heq|reflexivity]. }
+      { cbn [nxt hd]. rewrite Heq. cbn. lia. }
+      rewrite Hel, cur_st_cons, Heq. change (is_assignment_op KEquals) with true. cbv iota zeta.
+      pose proof (clean_app_r _ _ Hc) as Hc1.
+      rewrite advance_st; [|apply app_ne; exact Hne|exact (clean_tail _ _ Hc1)].
+      destruct (IH r) as (_ & _ & HAr & _); [lia|exact Hwr|].
+      destruct (HAr tr rs f Hlr Hmr Hne (clean_tail _ _ Hc1) Hfol HstA) as (er & Her & Hsr); [lia|].
+      rewrite Her. eexists. split; [reflexivity|]. cbn [strip]. rewrite Hsl, Hsr, Heq. reflexivity.
+    + (* ladder operator *)
+      apply assign_plain; auto.
+      assert (Hpos : 0 < prec_of op).
+      { cbn [wf] in Hw. rewrite Ecomma, Eeq in Hw. tauto. }
+      rewrite (slvl_ladder _ _ _ Hpos). lia.
+  - (* conditional *)
+    cbn [wf] in Hw. destruct Hw as (Hwc & Hwt & Hwf & Hlc & Hlt & Hlf). cbn [size] in Hsz.
+    cbn [yield] in Hm. apply M_app_inv in Hm. destruct Hm as (tc & t2 & E1 & Hmc & Hm).
+    apply M_cons_inv in Hm. destruct Hm as (q & t3 & E2 & Hq & Hm).
+    apply M_app_inv in Hm. destruct Hm as (tt & t4 & E3 & Hmt & Hm).
+    apply M_cons_inv in Hm. destruct Hm as (col & tf & E4 & Hcol & Hmf). subst ts t2 t3 t4.
+    apply tm_punct in Hq. apply tm_punct in Hcol.
+    norm_in Hc. norm_goal.
+    rewrite app_length in Hf. cbn [length] in Hf. rewrite app_length in Hf. cbn [length] in Hf.
+    destruct f as [|f]; [lia|]. rewrite parse_assign_S.
+    destruct (IH c) as (_ & HBc & _); [lia|exact Hwc|].
+    destruct (HBc 0 tc (q :: tt ++ col :: tf ++ rs) f) as (ec & Hec & Hsc); auto; try lia.
+    { discriminate. }
+    { apply (fol_k _ KQuestion); [exact Hq|reflexivity]. }
+    { cbn [nxt hd]. rewrite Hq. cbn. lia. }
+    rewrite Hec, cur_st_cons, at_kind_st_cons, Hq.
+    change (is_assignment_op KQuestion) with false. change (kind_eqb KQuestion KQuestion) with true.
+    cbv iota zeta.
+    pose proof (clean_app_r _ _ Hc) as Hc1. pose proof (clean_tail _ _ Hc1) as Hc2.
+    pose proof (clean_app_r _ _ Hc2) as Hc3. pose proof (clean_tail _ _ Hc3) as Hc4.
+    rewrite advance_st; [|apply app_ne; discriminate|exact Hc2].
+    destruct (IH t) as (_ & _ & HAt & _); [lia|exact Hwt|].
+    destruct (HAt tt (col :: tf ++ rs) f Hlt Hmt) as (et & Het & Hst); auto.
+    { discriminate. }
+    { apply (fol_k _ KColon); [exact Hcol|reflexivity]. }
+    { apply (stopA_k _ KColon); [exact Hcol|reflexivity]. }
+    { lia. }
+    rewrite Het, at_kind_st_cons, Hcol. change (kind_eqb KColon KColon) with true.
+    cbv beta iota zeta.
+    rewrite advance_st; [|apply app_ne; exact Hne|exact Hc4].
+    destruct (IH f0) as (_ & _ & HAf & _); [lia|exact Hwf|].
+    destruct (HAf tf rs f Hlf Hmf Hne Hc4 Hfol HstA) as (ef & Hef & Hsf); [lia|].
+    rewrite Hef. eexists. split; [reflexivity|]. cbn [strip]. rewrite Hsc, Hst, Hsf. reflexivity.
+Qed.
+
+(* ---------- the comma layer ---------- *)
+
+Lemma nxt_cs s tcs rs : M (yield_cs s) tcs -> fol (nxt rs) -> stopA (nxt rs) ->
+  fol (nxt (tcs ++ rs)) /\ stopA (nxt (tcs ++ rs)).
+Proof.
+  intros Hm Hfol HstA. destruct s as [|r s].
+  - apply M_nil_inv in Hm. subst tcs. split; assumption.
+  - cbn [yield_cs] in Hm. apply M_cons_inv in Hm. destruct Hm as (cm & t1 & E & Hcm & _).
+    subst tcs. cbn [app nxt hd]. apply tm_punct in Hcm. split.
+    + apply (fol_k _ KComma); [exact Hcm|reflexivity].
+    + apply (stopA_k _ KComma); [exact Hcm|reflexivity].
+Qed.
+
+Lemma cloop_complete : forall s, Forall (fun r => wf r /\ 1 <= slvl r /\ PA r) s ->
+  forall l ts rs f, M (yield_cs s) ts -> rs <> [] -> clean (ts ++ rs) -> fol (nxt rs) ->
+  stopA (nxt rs) -> stopE (nxt rs) -> (10 * length ts + 1 <= f)%nat ->
+  exists e, comma_loop f l (st (ts ++ rs)) = Some (e, st rs) /\ strip e = uncomma (strip l) s.
+Proof.
+  induction s as [|r s IH]; intros Hall l ts rs f Hm Hne Hc Hfol HstA HstE Hf.
+  - apply M_nil_inv in Hm. subst ts. cbn [app]. destruct f as [|f]; [lia|].
+    rewrite comma_loop_S, at_kind_st. unfold stopE in HstE. rewrite HstE.
+    exists l. split; reflexivity.
+  - pose proof (Forall_inv Hall) as (Hwr & Hlr & HAr). pose proof (Forall_inv_tail Hall) as Hall'.
+    cbn [yield_cs] in Hm. apply M_cons_inv in Hm. destruct Hm as (cm & t1 & E1 & Hcm & Hm).
+    apply M_app_inv in Hm. destruct Hm as (tr & tcs & E2 & Hmr & Hmcs). subst ts t1.
+    apply tm_punct in Hcm.
+    norm_in Hc. norm_goal. cbn [length] in Hf. rewrite app_length in Hf.
+    destruct f as [|f]; [lia|].
+    rewrite comma_loop_S, at_kind_st_cons, Hcm, keqb_refl. cbv zeta.
+    pose proof (clean_tail _ _ Hc) as Hc1. pose proof (clean_app_r _ _ Hc1) as Hc2.
+    rewrite advance_st; [|apply app_ne, app_ne; exact Hne|exact Hc1].
+    destruct (nxt_cs s tcs rs Hmcs Hfol HstA) as (Hfol' & HstA').
+    destruct (HAr tr (tcs ++ rs) f Hlr Hmr) as (er & Her & Hsr); auto.
+    { apply app_ne; exact Hne. }
+    { lia. }
+    rewrite Her.
+    match goal with |- exists e, comma_loop f ?L _ = _ /\ _ =>
+      destruct (IH Hall' L tcs rs f Hmcs Hne Hc2 Hfol HstA HstE) as (e & He & Hse); [lia|]
+    end.
+    exists e. split; [exact He|]. rewrite Hse. cbn [strip uncomma]. rewrite Hsr. reflexivity.
+Qed.
+
+Lemma step_E n : IHn n -> (forall x, (size x <= S n)%nat -> wf x -> PA x) ->
+  forall x, (size x <= S n)%nat -> wf x -> PE x.
+Proof.
+  intros IH HA x Hsz Hw. unfold PE. intros ts rs f Hm Hne Hc Hfol HstA HstE Hf.
+  pose proof (cspine_spec x Hw) as Hsp. destruct (cspine x) as [a s].
+  destruct Hsp as (Eu & Ey & Hwa & Hla & Hsa & Hs).
+  rewrite Ey in Hm. apply M_app_inv in Hm. destruct Hm as (ta & tcs & Ets & Hma & Hmcs). subst ts.
+  norm_in Hc. norm_goal. rewrite app_length in Hf.
+  destruct f as [|f]; [lia|]. rewrite parse_expression_S.
+  destruct (nxt_cs s tcs rs Hmcs Hfol HstA) as (Hfol' & HstA').
+  destruct (HA a) with (ts := ta) (rs := tcs ++ rs) (f := f) as (l & Hel & Hsl); auto.
+  { lia. }
+  { apply app_ne; exact Hne. }
+  { lia. }
+  rewrite Hel.
+  destruct (cloop_complete s) with (l := l) (ts := tcs) (rs := rs) (f := f) as (e & He & Hse); auto.
+  { eapply Forall_impl; [|exact Hs]. intros r (H1 & H2 & H3). split; [exact H1|]. split; [exact H2|].
+    destruct (IH r) as (_ & _ & HAr & _); [lia|exact H1|exact HAr]. }
+  { exact (clean_app_r _ _ Hc). }
+  { lia. }
+  rewrite He. exists e. split; [reflexivity|]. rewrite Hse, Hsl. exact Eu.
+Qed.
+
+(* ---------- all levels, by strong induction on the size of the tree ---------- *)
+
+Lemma all_complete : forall n, IHn n.
+Proof.
+  induction n as [|n IH].
+  - intros y Hs. pose proof (size_pos y). lia.
+  - pose proof (step_U n IH) as HU.
+    pose proof (step_B n IH HU) as HB.
+    pose proof (step_A n IH HB) as HA.
+    pose proof (step_E n IH HA) as HE.
+    intros y Hs Hw. auto.
+Qed.
+
+Theorem expression_complete x : wf x -> PE x.
+Proof. intros Hw. destruct (all_complete (size x) x (le_n _) Hw) as (_ & _ & _ & HE). exact HE. Qed.
+
+(* ---------- top level ---------- *)
+
+Theorem parse_complete : forall (x : sexpr) (toks : list token),
+  wf x -> derives x toks -> Forall (fun t => tdiags t = []) toks ->
+  exists e, parse_tokens (parse_fuel (length toks)) toks = Accepted e /\ strip e = x.
+Proof.
+  intros x toks Hw Hd Hclean. unfold derives in Hd.
+  apply M_app_inv in Hd. destruct Hd as (ts & t2 & Etoks & Hm & Hm2).
+  apply M_cons_inv in Hm2. destruct Hm2 as (te & t3 & E2 & Hte & Hm3).
+  apply M_nil_inv in Hm3. subst t2 t3 toks. apply tm_punct in Hte.
+  destruct (first_tok_M x ts Hw Hm) as (t0 & ts' & Ets & _).
+  destruct (expression_complete x Hw ts [te] (parse_fuel (length (ts ++ [te])))) as (e & He & Hs).
+  - exact Hm.
+  - discriminate.
+  - exact Hclean.
+  - apply (fol_k _ KEOF); [exact Hte|reflexivity].
+  - apply (stopA_k _ KEOF); [exact Hte|reflexivity].
+  - unfold stopE. cbn [nxt hd]. rewrite Hte. reflexivity.
+  - unfold parse_fuel. rewrite app_length. cbn [length]. lia.
+  - exists e. split; [|exact Hs].
+    assert (Hd0 : tdiags t0 = []).
+    { subst ts. cbn [app] in Hclean. inversion Hclean; assumption. }
+    revert He. subst ts. cbn [app]. intros He.
+    unfold parse_tokens. rewrite Hd0.
+    change (mkSt t0 (ts' ++ [te]) (add_diags [] [])) with (st (t0 :: ts' ++ [te])).
+    rewrite He. rewrite at_kind_st_cons, Hte. change (kind_eqb KEOF KEOF) with true. cbv iota.
+    reflexivity.
+Qed.
+
+(* two derivations of one token stream are equal: the grammar is unambiguous *)
+Corollary derivation_unique : forall x y toks,
+  wf x -> wf y -> derives x toks -> derives y toks ->
+  Forall (fun t => tdiags t = []) toks -> x = y.
+Proof.
+  intros x y toks Hwx Hwy Hdx Hdy Hc.
+  destruct (parse_complete x toks Hwx Hdx Hc) as (e1 & H1 & S1).
+  destruct (parse_complete y toks Hwy Hdy Hc) as (e2 & H2 & S2).
+  rewrite H1 in H2. inversion H2; subst. reflexivity.
+Qed.
+
+(* for the glue with totality: some fuel suffices, and then any larger fuel gives the same answer *)
+Corollary parse_complete_some_fuel : forall (x : sexpr) (toks : list token),
+  wf x -> derives x toks -> Forall (fun t => tdiags t = []) toks ->
+  exists fuel e, parse_tokens fuel toks = Accepted e /\ strip e = x.
+Proof.
+  intros x toks Hw Hd Hc. destruct (parse_complete x toks Hw Hd Hc) as (e & H & S).
+  exists (parse_fuel (length toks)), e. auto.
+Qed.
+
+Print Assumptions parse_expression_mono.
+Print Assumptions derivation_unique.
+Print Assumptions parse_complete.
